@@ -33,6 +33,8 @@ def main():
         from vlib import chx
     for n in names:
         o = obls[n]
+        if tier == "quick":
+            o.budget = min(o.budget, float(os.environ.get("VERIF_QUICK_BUDGET_CAP", "360")))  # hard per-obligation cap in the quick tier
         t0 = time.time()
         if o.kind == "smt":
             try:
